@@ -46,6 +46,8 @@ def run(ctx):
         body = nt.random_track(r, r.choice([150, 400]), res=192, phrases=r.choice([100, 300, 800]), events=3, max_tick_gap=20, unit_gap_p=0.4)
         cases.append({"id": f"C05-big{k}", "res": 192, "body": body})
     _notes._judge(ctx, cases, "C05", "seeded tracks with hundreds of phrases", max_skip_ratio=0.0)
+    # ticks around the constants a platform knows (2^31, 2^32, 2^53, 2^63, 2^64)
+    _notes._judge(ctx, _notes.platform_constant_tracks("C05", r), "C05", "ticks around platform constants", max_skip_ratio=0.0)
     # several instrument sections in one chart, each judged as if it were alone
     cases = _notes.seeded_multi(ctx, "C05", ctx.pick(150, 2500), max_tick_gap=30, unit_gap_p=0.4)
     _notes._judge_multi(ctx, cases, "C05", "seeded charts with several sections", max_skip_ratio=0.02)
